@@ -467,6 +467,9 @@ func coverDocs(emit func(c01Case)) {
 				vs[pr.VocabURI] = true
 				name := pr.Name
 				if k.Lit == "RDFLangString" {
+					if pr.Vocab == *noMapVocab {
+						continue
+					}
 					name = pr.Name + "Map"
 				}
 				m[name] = mk(k, 0, vs)
